@@ -1,19 +1,22 @@
 \* thorough: rule sets of <= 2 rules over 5 from-paths x 4 except lists and the three-rule families; request paths of
-\* <= 2 segments over 12 segment spellings and of 3 segments over 6
+\* <= 2 segments over 12 segment spellings and of 3 segments over 7
 CONSTANT Spaces = {"route", "target", "query", "pool"}
 CONSTANT RouteSegs = {"a", "A", "b", "x", "..", ".", "%2F", "%61", "", ";p", "ab", "%2E%2E"}
 CONSTANT RouteMax = 2
-CONSTANT RouteSegs3 = {"a", "b", "x", "..", "%2F", ""}
+CONSTANT RouteSegs3 = {"a", "A", "b", "x", "..", "%2F", ""}
 CONSTANT RouteFroms = {"/", "/a", "/a/", "/a/b", "/A"}
 CONSTANT RouteExcepts = {"none", "/x", "/a/x", "/x/"}
+CONSTANT RouteExcepts1 = {"/b /x", "/"}
 CONSTANT Route3 = TRUE
 CONSTANT TargetSegs = {"a", "A", "b", "x", "..", "%2F", "%2f", "%61", "%41", "", ";p", "%3B", "a%20b", "a%25b", "a+b", "%C3%A9", "a%2Fx", "%61%2Fx", "%2E%2E"}
 CONSTANT TargetMax = 2
+CONSTANT TargetSegs3 = {"a", "..", "%2F", "%61", ""}
 CONSTANT WithoutRaw = "decoded"
 CONSTANT SchemeTest = "scheme"
 SPECIFICATION Spec
 INVARIANT TypeOK
 INVARIANT RuleChoiceIsLongestMatch
+INVARIANT FromPrefixIsSegmentWise
 INVARIANT ChoiceIsOrderIndependent
 INVARIANT ExceptMeansNotProxied
 INVARIANT TargetIsBasePlusStrippedPath
